@@ -712,7 +712,7 @@ def run(run: Run):
     rng = run.rng
     for k in KINDS:
         explore({}, [gen_msg(rng, k)], 'single')
-    n = 420 if run.tier == "quick" else 3000
+    n = 300 if run.tier == "quick" else 3000
     for i in range(n):
         explore(rng.choice(BLOCKMAPS), gen_seq(rng), 'random')
 
